@@ -36,3 +36,28 @@ Theorem C03_egress_loop_example :
   poll_loop nat ex_dispatch 10 [2; 0; 3]%nat = Some ([0; 0; 0]%nat, 3%nat).
 Proof. exact egress_loop_example. Qed.
 Print Assumptions C03_egress_loop_example.
+
+(* The same loop with what the sockets SHARE made explicit (Model/EgressLoop.v, second section): an
+   environment [E] (device transmit budget, neighbor cache, fragmenter) read and written by every
+   dispatch and by the interface's own transmissions before each pass ([pre]); a pass breaks at the first
+   socket that finds the device exhausted.  For ANY environment behaviour: if an invariant of each socket
+   is kept by its dispatch, a sent packet strictly decreases the socket's measure and any other outcome
+   (nothing to send, refused emit, exhausted device) does not increase it, the loop returns.  No
+   independence assumption is left: the hypotheses quantify over every environment value. *)
+Theorem C03_egress_loop_shared_env_returns :
+  forall (E St : Type) (dispatch : E -> St -> E * St * dres) (pre : E -> E)
+         (Inv : St -> Prop) (mu : St -> nat),
+  (forall e s e' s' r, Inv s -> dispatch e s = (e', s', r) -> Inv s') ->
+  (forall e s e' s', Inv s -> dispatch e s = (e', s', RSent) -> (mu s' < mu s)%nat) ->
+  (forall e s e' s' r, Inv s -> dispatch e s = (e', s', r) -> r <> RSent -> (mu s' <= mu s)%nat) ->
+  forall fuel e ss, Forall Inv ss -> (total2 St mu ss < fuel)%nat ->
+  exists e' r n, poll_loop2 E St dispatch pre fuel e ss = Some (e', r, n) /\
+                 (n + total2 St mu r <= total2 St mu ss)%nat /\ length r = length ss /\ Forall Inv r.
+Proof. exact poll_loop2_returns. Qed.
+Print Assumptions C03_egress_loop_shared_env_returns.
+
+Theorem C03_egress_loop_shared_env_example :
+  poll_loop2 nat nat ex_dispatch2 Nat.pred 10 4%nat [2; 0; 3]%nat = Some (0%nat, [1; 0; 2]%nat, 1%nat) /\
+  poll_loop2 nat nat ex_dispatch2 Nat.pred 10 20%nat [2; 0; 3]%nat = Some (11%nat, [0; 0; 0]%nat, 3%nat).
+Proof. exact egress_loop2_example. Qed.
+Print Assumptions C03_egress_loop_shared_env_example.
